@@ -556,6 +556,10 @@ class Fn:
             if ctx.cont is None:
                 raise Unsupported("continue outside a loop")
             return ctx.cont(env)
+        if k == "break":
+            if getattr(ctx, "brk", None) is None:
+                raise Unsupported("break outside a `for` loop")
+            return ctx.brk(env)
         if self.spec.get("effects") and ctx.val is not None:
             teff = self.effect_of(("expr", e, False), env)
             if teff is not None:
@@ -568,7 +572,7 @@ class Fn:
                 raise Unsupported("expression statement without continuation")
             if e[0] == "tuple" and not e[1]:
                 return ctx.fall(env)
-            return self.stmts([("expr", e, True)], None, env, Ctx(val=None, ret=ctx.ret, fall=ctx.fall, cont=getattr(ctx, "cont", None)))
+            return self.stmts([("expr", e, True)], None, env, Ctx(val=None, ret=ctx.ret, fall=ctx.fall, cont=getattr(ctx, "cont", None), brk=getattr(ctx, "brk", None)))
         return ctx.val(self.ex(e, env))
 
     def match(self, e, env, ctx):
@@ -961,7 +965,7 @@ class Fn:
                 if e[0] == "tuple":
                     st = "(" + ",".join(self.ty(x, env) or "?" for x in e[1]) + ")"
                 ps, add = self.pat(pat, env, st)
-                other = self.block(els, env, Ctx(val=None, ret=ctx.ret, fall=None, cont=ctx.cont))
+                other = self.block(els, env, Ctx(val=None, ret=ctx.ret, fall=None, cont=ctx.cont, brk=getattr(ctx, "brk", None)))
                 return "match %s with %s => %s | _ => %s end" % (self.ex(e, env), ps, after(dict(env, **add)), other)
             opt_try = e[0] == "try" and e[1][0] == "call" and e[1][1][0] == "path" and "::".join(e[1][1][1]) in self.spec.get("opt_try_calls", ())
             if pat[0] == "pbind" and e[0] == "try" and (opt_try or not self.spec.get("try_transparent")):
@@ -1068,11 +1072,20 @@ class Fn:
             ps, add = self.pat(pat, env, elem_t)
             env2 = dict(env, **add)
             fall = lambda env_: "inl " + tup
+            if ctx.ret is None:
+                raise Unsupported("loop in an expression")
+            has_break = '["break"]' in json.dumps(body)
+            if has_break:
+                # `break` leaves the loop with the CURRENT state: the value of the rest of the function from there; an
+                # early `return` inside the loop is wrapped in place, and the caller passes either through unchanged
+                bctx = Ctx(val=None, ret=lambda r_: "inr " + paren(ctx.ret(r_)), fall=fall, cont=fall, brk=lambda env_: "inr " + paren(after(env_)))
+                bs = self.block(body, env2, bctx)
+                r = self.fresh("r")
+                return ("match for_loop %s (fun %s => %s => %s) %s with inl %s => %s | inr %s => %s end"
+                        % (self.ex(it, env), paren(ps) if ps[0] != "(" else "'" + ps, lam_s, bs, tup, tup if vs else "_", after(env), r, r))
             bctx = Ctx(val=None, ret=lambda r: "inr " + paren(r), fall=fall, cont=fall)
             bs = self.block(body, env2, bctx)
             r = self.fresh("r")
-            if ctx.ret is None:
-                raise Unsupported("loop in an expression")
             return ("match for_loop %s (fun %s => %s => %s) %s with inl %s => %s | inr %s => %s end"
                     % (self.ex(it, env), paren(ps) if ps[0] != "(" else "'" + ps, lam_s, bs, tup, tup if vs else "_", after(env), r, ctx.ret(r)))
         if k == "expr":
@@ -1085,6 +1098,10 @@ class Fn:
                 if getattr(ctx, "cont", None) is None:
                     raise Unsupported("continue outside a loop")
                 return ctx.cont(env)
+            if e[0] == "break":
+                if getattr(ctx, "brk", None) is None:
+                    raise Unsupported("break outside a `for` loop")
+                return ctx.brk(env)
             if e[0] == "macro" and e[1] == "debug_assert_eq" and self.spec.get("debug_asserts"):
                 # the checked build panics when the two sides differ: `if checked && negb (a = b) then <panic> else ...`
                 parts, cur, depth = [], [], 0
@@ -1113,7 +1130,7 @@ class Fn:
                 return after(env)
             if e[0] in ("if", "iflet", "match", "block"):
                 # statement position: every branch continues with the rest of the block (duplicated)
-                sub = Ctx(val=None, ret=ctx.ret, fall=lambda env_: after(env_), cont=getattr(ctx, "cont", None))
+                sub = Ctx(val=None, ret=ctx.ret, fall=lambda env_: after(env_), cont=getattr(ctx, "cont", None), brk=getattr(ctx, "brk", None))
                 return self.tail(e, env, sub)
             raise Unsupported("expression statement " + e[0])
         raise Unsupported("statement " + k)
@@ -1123,8 +1140,8 @@ MUTATORS = ("push", "sort", "sort_unstable", "dedup")
 
 
 class Ctx:
-    def __init__(self, val, ret, fall, cont=None):
-        self.val, self.ret, self.fall, self.cont = val, ret, fall, cont
+    def __init__(self, val, ret, fall, cont=None, brk=None):
+        self.val, self.ret, self.fall, self.cont, self.brk = val, ret, fall, cont, brk
 
 
 def paren(s):
@@ -1933,6 +1950,60 @@ def functions():
         return "Definition g_parse_listing (stdout : list Z) : metamap :=\n  %s." % text
     out.append(("parse_listing", "src/bin/copia/meta.rs parse_remote_meta_output", None, t_parse_listing))
 
+    SERVE_LIST = """{
+    let fps = discover_local_fingerprints(root).unwrap_or_default();
+    let map = fps
+        .into_iter()
+        .filter(|(p, _)| !p.starts_with(".copia"))
+        .map(|(p, f)| (p.to_string_lossy().into_owned(), f))
+        .collect();
+    write_frame(&mut w, &Response::Fingerprints(map))?;
+}"""
+
+    def t_serve():
+        src = read("src/bin/copia/serve.rs")
+        params, ret, body = R.find_fn(src, "serve", None)
+        norm = lambda x: json.loads(json.dumps(x))
+        if [n for n, _ in params] != ["root"]:
+            raise Unsupported("signature of serve is %s" % params)
+        loops = [st for st in body[1] if st[0] == "whilelet"]
+        if len(loops) != 1 or norm(loops[0][1]) != norm(("ppath", ["Some"], [("pbind", "req")])) \
+                or norm(loops[0][2]) != norm(("try", ("call", ("path", ["read_frame"]), [("path", ["r"])]))):
+            raise Unsupported("serve: the requests are no longer read by `while let Some(req) = read_frame::<_, Request>(&mut r)? { .. }`")
+        # read as: `for req in reqs`, reqs = the requests that read_frame decodes until the clean end / an error (TieWireFrame)
+        want_list = R.Parser(R.tokenize(SERVE_LIST)).block()
+        def rewrite(n):
+            if isinstance(n, tuple):
+                if n and n[0] == "block" and norm(n) == norm(want_list):
+                    return ("block", [("expr", ("call", ("path", ["LIST_REPLY"]), []), True)], None)
+                return tuple(rewrite(x) for x in n)
+            if isinstance(n, list):
+                return [rewrite(x) for x in n]
+            return n
+        lbody = rewrite(loops[0][3])
+        if norm(lbody) == norm(loops[0][3]):
+            raise Unsupported("serve: the List arm is no longer the reviewed one (scan, hide the `.copia` control directory by Path::starts_with, reply Fingerprints)")
+        new_loop = ("for", ("pbind", "req"), ("path", ["reqs"]), lbody)
+        stmts = [new_loop if st is loops[0] else st for st in body[1]]
+        spec = dict(try_transparent=True,
+                    let_conv={"lockdir": "LockDir", "r": "tt", "w": "tt"}, rename={"root": "Root"},
+                    consts={"VERSION": ("VERSION", "u32")},
+                    paths={"Request::List": "SList", "Request::Bye": "SBye"},
+                    structs={"Request::Hello": ("SHello", ["version"], ["u32"]), "Request::Get": ("SGet", ["path"], ["String"]),
+                             "Request::Put": ("SPut", ["path", "expected", "len", "hash"], ["String", "Option<Hash>", "u64", "Hash"]),
+                             "Request::Delete": ("SDel", ["path", "expected"], ["String", "Option<Hash>"]),
+                             "Response::Hello": ("RHelloV", ["version"], ["u32"])},
+                    calls={"super::wire::read_magic": ("magic_ok (* {0} *)", "bool")},
+                    effects={"std::fs::create_dir_all": "VMkdir {0}", "write_frame": "VReply {1}", "LIST_REPLY": "VList",
+                             "handle_get": "VGet {1}", "handle_put": "VPut {2} {3} {4} {5}", "handle_delete": "VDelete {2} {3}"},
+                    env_types={"reqs": "Vec<Request>"},
+                    ok=lambda s_: "effs", errs=[(r"bad protocol prologue", "effs ++ [VBadPrologue]")], prologue="let effs := [] in ")
+        fn = Fn(spec)
+        env = {"root": "Path", "reqs": "Vec<Request>"}
+        text = spec["prologue"] + fn.block(("block", stmts, body[2]), env, Ctx(val=(lambda x: x), ret=(lambda x: x), fall=None))
+        return "Definition g_serve (magic_ok : bool) (reqs : list sreq) : list veff :=\n  %s." % text
+    out.append(("serve", "src/bin/copia/serve.rs serve", None, t_serve))
+
     def t_run_remote():
         src = read("src/bin/copia/incremental.rs")
         params, ret, body = R.find_fn(src, "run_remote", None)
@@ -2022,6 +2093,7 @@ GROUPS = {
     "HubDelete": ("", "hubseq", ["handle_delete", "handle_put"]),
     "BisyncRun": ("", "bisyncrun", ["run_bisync"]),
     "HubSync": ("", "hubsync", ["hub_sync"]),
+    "ServeLoop": ("", "serveloop", ["serve"]),
     "BisyncSys": ("", "bisyncsys", ["copy_atomic"]),
     "ArchiveSave": ("Model.ArchiveSys", "archivesys", ["archive_save"]),
     "OneWaySys": ("Model.OneWaySys", "onewaysys", ["tmp_path", "deliver_local", "deliver_pull"]),
@@ -2155,6 +2227,16 @@ def main():
                      "Fixpoint strip_prefix_lit (pre s : list Z) : option (list Z) :=\n"
                      "  match pre with\n  | [] => Some s\n  | p :: pre' => match s with x :: s' => if x =? p then strip_prefix_lit pre' s' else None | [] => None end\n  end.\n\n"
                      + "\n".join(texts))
+        elif digest == "serveloop":
+            body = ("(** GENERATED by tools/gen_logic.py from /repo's CURRENT source - do not edit.\n    serve.rs `serve` as the ordered list of what it does, given whether the prologue was the magic and the requests\n"
+                    "    that `read_frame` decodes (Proofs/TieWireFrame.v) until the clean end. *)\n"
+                    "From stdpp Require Import gmap.\nFrom Copia Require Import Gen.Constants Model.LoopLib Model.Hub Model.SafeJoin Model.HubSeq.\n\n"
+                    "Section WithDigest.\nContext {D : Type}.\nNotation sreq := (@HubSeq.sreq D).\n"
+                    "Definition VERSION : Z := WIRE_VERSION.\n"
+                    "Inductive place := Root | LockDir.\nInductive vreply := RHelloV (version : Z).\n"
+                    "Inductive veff := VMkdir (p : place) | VBadPrologue | VReply (r : vreply) | VList | VGet (path : list Z)\n"
+                    "  | VPut (path : list Z) (expected : option D) (len : Z) (hash : D) | VDelete (path : list Z) (expected : option D).\n\n"
+                    + "\n".join(texts) + "End WithDigest.\n")
         elif digest == "archivesys":
             body = (HEADER % (group, imports)) + "\nSection WithFs.\nVariable path_exists : apath -> bool.   (* path.exists() *)\n\n" + "\n".join(texts) + "End WithFs.\n"
         elif digest == "onewaysys":
